@@ -724,7 +724,7 @@ def _axes(g, newrank, k, force=None):
     ax = list(g.draw(st.lists(st.integers(0, newrank - 1), min_size=k, max_size=k, unique=True)))
     if force is not None and k == 1 and 0 <= force < newrank:
         ax = [force]
-    spell = g.pick(["pos", "pos", "pos", "neg", "mixed"])
+    spell = g.pick(["pos", "pos", "pos", "pos", "pos", "neg", "mixed"])
     if spell == "neg":
         ax = [a - newrank for a in ax]
     elif spell == "mixed":
@@ -747,8 +747,8 @@ def host_unsqueeze_unsqueeze(g):
     if g.chance(2):
         x = _via_node(g, x)
     r = len(shape)
-    k1 = g.pick([1, 1, 1, 1, 2])
-    k2 = g.pick([1, 1, 1, 1, 2])
+    k1 = g.pick([1, 1, 1, 1, 1, 1, 2])
+    k2 = g.pick([1, 1, 1, 1, 1, 1, 2])
     a1, s1 = _axes(g, r + k1, k1)
     rel = g.pick(["any", "any", "equal", "below", "below", "above"])
     force = None
